@@ -285,6 +285,16 @@ fn circle_strategy() -> impl Strategy<Value = CircleCase> {
             _ => r as f64 + o,
         };
         let p = [c[0] as f64 + d.0 / n * dist, c[1] as f64 + d.1 / n * dist, c[2] as f64 + d.2 / n * dist];
+        if k == 1 && o.abs() < 0.5 {
+            // a quarter of the near-surface cases: exactly on the sphere along the dominant axis of the direction (the
+            // radius is rounded to a multiple of 1/8 so that centre + radius is exact in f32 for these magnitudes)
+            let r = ((r * 8.0).round() / 8.0).max(0.125);
+            let axis = if d.0.abs() >= d.1.abs() && d.0.abs() >= d.2.abs() { 0 } else if d.1.abs() >= d.2.abs() { 1 } else { 2 };
+            let c = [(c[0] * 8.0).round() / 8.0, (c[1] * 8.0).round() / 8.0, (c[2] * 8.0).round() / 8.0];
+            let mut p = c;
+            p[axis] = if [d.0, d.1, d.2][axis] < 0.0 { c[axis] - r } else { c[axis] + r };
+            return CircleCase { c, r, p };
+        }
         CircleCase { c, r, p: [p[0] as f32, p[1] as f32, p[2] as f32] }
     })
 }
@@ -292,6 +302,16 @@ fn circle_strategy() -> impl Strategy<Value = CircleCase> {
 fn dist64(a: [f32; 3], b: [f32; 3]) -> f64 {
     let d = [a[0] as f64 - b[0] as f64, a[1] as f64 - b[1] as f64, a[2] as f64 - b[2] as f64];
     (d[0] * d[0] + d[1] * d[1] + d[2] * d[2]).sqrt()
+}
+
+/// the player differs from the centre in exactly one coordinate, and by exactly the radius (in f32 and in f64)
+fn on_sphere_along_an_axis(k: &CircleCase) -> bool {
+    let diff: Vec<usize> = (0..3).filter(|i| k.p[*i] != k.c[*i]).collect();
+    if diff.len() != 1 || !(k.r > 0.0) || !k.r.is_finite() {
+        return false;
+    }
+    let i = diff[0];
+    (k.p[i] - k.c[i]).abs() == k.r && (k.p[i] as f64 - k.c[i] as f64).abs() == k.r as f64 && (k.r * k.r).is_finite() && k.r * k.r > f32::MIN_POSITIVE
 }
 
 fn judge_circle(k: &CircleCase) -> Result<Verdict, String> {
@@ -306,7 +326,11 @@ fn judge_circle(k: &CircleCase) -> Result<Verdict, String> {
     }
     let margin = (d - k.r as f64).abs();
     let tol = 1e-4 * (d + k.r as f64 + 1.0);
-    let v = if margin < tol {
+    let v = if on_sphere_along_an_axis(k) {
+        // decidable without any tolerance: the offset is exactly the radius in f32 and in f64, and sqrt(fl(r*r)) == r
+        // for correctly rounded binary arithmetic: the distance IS the radius, the point is not closer than it
+        Verdict::Outside
+    } else if margin < tol {
         Verdict::Boundary
     } else if d < k.r as f64 {
         Verdict::Inside
@@ -370,7 +394,7 @@ pub fn run(tier: Tier, replay: Option<String>) -> i32 {
             }
         };
     }
-    c.rule = "boxes (centre, L/W/H over 4 orders of magnitude, yaw in [-4pi,4pi]) with the player placed per axis in the box frame (centre / inside / within 3 yards of a face on either side / far) and mapped to world coordinates by the oracle's own rotation; circles with the player placed by distance from the centre; every table trigger of the three expansions probed the same way through verify_trigger. Oracle: f64, local = R(-yaw)(p-c), |l_i| <= dim_i/2+2, same map; circle: distance < r. Points within 1e-4*scale of a face are boundary cases: counted, not judged. Non-trivial = judged case with yaw not within 1e-3 of a multiple of pi/2 and at least one axis within 3 yards of a face (boxes), or within 2 yards of the sphere (circles). Distinct = (shape, 32 yaw buckets, per-axis placement class, verdict).".into();
+    c.rule = "boxes (centre, L/W/H over 4 orders of magnitude, yaw in [-4pi,4pi]) with the player placed per axis in the box frame (centre / inside / within 3 yards of a face on either side / far) and mapped to world coordinates by the oracle's own rotation; circles with the player placed by distance from the centre; every table trigger of the three expansions probed the same way through verify_trigger. Oracle: f64, local = R(-yaw)(p-c), |l_i| <= dim_i/2+2, same map; circle: distance < r. Points within 1e-4*scale of a face are boundary cases: counted, not judged - except points that differ from a circle's centre in one coordinate by exactly the radius (exact in f32 and f64): their distance is the radius, they are judged outside (generated circles and all six such points of every table circle). Non-trivial = judged case with yaw not within 1e-3 of a multiple of pi/2 and at least one axis within 3 yards of a face (boxes), or within 2 yards of the sphere (circles). Distinct = (shape, 32 yaw buckets, per-axis placement class, verdict).".into();
     c.assume("f32 rounding inside the library stays below the boundary tolerance 1e-4*(|p-c|+dims+1)");
 
     let n_box = tier.pick(300_000u32, 3_000_000);
@@ -426,6 +450,10 @@ pub fn run(tier: Tier, replay: Option<String>) -> i32 {
                 c.eval();
                 match &r {
                     Ok(Verdict::Boundary) => c.count("circle.boundary_not_judged"),
+                    Ok(Verdict::Outside) if on_sphere_along_an_axis(k) => {
+                        c.count("circle.exactly_on_the_sphere_judged_outside");
+                        c.nontrivial(7u64 << 40 | ((k.r.to_bits() as u64) >> 12) << 4 | (0..3).find(|i| k.p[*i] != k.c[*i]).unwrap_or(0) as u64);
+                    }
                     Ok(v) => {
                         let d = dist64(k.c, k.p);
                         if (d - k.r as f64).abs() < 2.0 {
@@ -510,6 +538,43 @@ pub fn run(tier: Tier, replay: Option<String>) -> i32 {
         }
         c.extra.insert(format!("table_triggers_{}", ename), json!(geo.len()));
         c.extra.insert(format!("table_squares_{}", ename), json!(geo.iter().filter(|g| g.4).count()));
+        // every circle of the table: the points centre +- radius along each axis, where that sum is exact, are at distance
+        // radius: not inside
+        {
+            let mut judged = 0u64;
+            let mut bad: Option<(u32, [f32; 3], [f32; 3], f32)> = None;
+            for (id, centre, dims, _, square) in geo.iter() {
+                if *square {
+                    continue;
+                }
+                for axis in 0..3 {
+                    for sign in [-1.0f32, 1.0] {
+                        let mut p = *centre;
+                        p[axis] = centre[axis] + sign * dims[0];
+                        let k = CircleCase { c: *centre, r: dims[0], p };
+                        if !on_sphere_along_an_axis(&k) {
+                            continue;
+                        }
+                        judged += 1;
+                        c.eval();
+                        let (res, contains) = verify(*id, p, true);
+                        if (res == "Success" || contains) && bad.is_none() {
+                            bad = Some((*id, *centre, p, dims[0]));
+                        }
+                    }
+                }
+            }
+            c.count_n("table.circle_points_exactly_on_the_sphere", judged);
+            if judged > 0 {
+                c.nontrivial(9u64 << 40 | ei as u64);
+            }
+            if let Some((id, centre, p, r)) = bad {
+                let k = CircleCase { c: centre, r, p };
+                let mut j = circle_json(&k);
+                j["table_case"] = json!({"expansion": ename, "trigger": id});
+                c.fail(&format!("geometry:verify_trigger:{}:circle-on-sphere-inside", ename), &format!("trigger {} (circle, radius {}): a player exactly {} away from the centre along one axis is reported inside", id, r, r), j);
+            }
+        }
         // ids absent from the table must be NotFound: covered by table() itself (ids 0..20000 enumerated);
         // every id that is present is probed below.
         let ids: Vec<usize> = (0..geo.len()).collect();
